@@ -405,6 +405,12 @@ func (d *Do) Evaluation(
 		return nil
 	}
 
+	// a `return` in a lambda leaves the lambda, not the method around it
+	_, _, calledMethod := p.GetLastCallFrameDetails()
+	if calledMethod == "lambda" || calledMethod == "->" {
+		defer p.TruncateLastReturnT(p.CountLastReturnT())
+	}
+
 	zaorik, err := d.prepareBlockScope(p, ctx)
 	if err != nil {
 		return err
